@@ -82,6 +82,18 @@ def worker(job):
                 except Exception as e:
                     if "EncodeError" not in type(e).__name__:
                         bad("oversize", "an oversized request raised %r" % e)
+            if i in (2 * job["n"] // 3, 2 * job["n"] // 3 + 5):
+                # a key change that is refused (unusable privacy key: empty pass phrase / localized key of the wrong size) raises
+                # and must leave the installation as it was: same key, salt counter carrying on
+                # (master keys of any size are accepted by design - the Python layer pads them - so no such event for them)
+                kt = user.get_priv_alg() & 0xC0
+                junk = b"" if kt == 0 else b"\x01" * 5
+                if kt != 0x40:
+                    try:
+                        sock.set_keys(user.name, user.get_auth_alg(), user.get_auth_key(), user.get_priv_alg(), junk)
+                        bad("set_keys", "set_keys with an unusable privacy key (%r) was accepted" % junk)
+                    except Exception:
+                        res["refused_set_keys"] = res.get("refused_set_keys", 0) + 1
             r = rng.random()
             oid = M.gen_oid(rng, 8, 12)
             state["reply"] = r < 0.08
@@ -264,6 +276,7 @@ def main():
         st["boots_changes"] += res["boots_changes"]
         st["receives"] += res["receives"]
         st["distinct_salts"] += res["salts_distinct"]
+        st["refused_set_keys"] = st.get("refused_set_keys", 0) + res.get("refused_set_keys", 0)
         for x in res.get("samples", [])[:1]:
             chk.sample(x, limit=5)
         key = rigp.Cfg.from_json(o["job"]["cfg"]).key()
